@@ -38,6 +38,7 @@ def gen_spec(r, tier):
         spec["type"] = ty
         spec["ll"] = gl.rand_limits(r, d, 0.25)
         spec["aw"] = gl.rand_aw(r, d, ty) if r.random() < 0.35 else []
+        tensor_aw = ("tensor" in ty and bool(spec["aw"]))
         if fam == "global":
             spec["rule"] = r.choice(NESTED + NONNESTED)
             slow = spec["rule"] in ("clenshaw-curtis", "clenshaw-curtis-zero", "fejer2", "gauss-patterson", "rleja-double2", "rleja-double4") or spec["rule"].endswith("-odd")
@@ -52,6 +53,8 @@ def gen_spec(r, tier):
             spec["depth"] = r.randint(1, 2) if "tensor" in ty else (r.randint(1, 4) if ty in ("level", "curved", "hyperbolic") else r.randint(1, 6 if d <= 2 else 4))
         else:
             spec["depth"] = r.randint(1, 2) if ("tensor" in ty or ty in ("level", "curved", "hyperbolic")) else r.randint(1, 5 if d <= 2 else 3)
+        if tensor_aw:
+            spec["depth"] = 1
     elif fam == "localp":
         spec["rule"] = r.choice(["localp", "semi-localp", "localp-boundary"])
         spec["order"] = r.choice([1, 2, 3, -1, 4]) if spec["rule"] != "semi-localp" else r.choice([2, 3, -1, 4])
